@@ -172,11 +172,16 @@ def tryFromFd (env : Env) (inner : Fd) : M ProcH := do
   pure { fd := inner, mntId, isSubset, emulated := !env.openat2 }
 
 /-- `ProcfsHandle::new_fsopen` -/
-def newFsopen (env : Env) (subset : Bool) : M ProcH := do
-  let sfd ← Sys.fsopen b!"proc" FSOPEN_CLOEXEC
-  if subset then
+def setSubsetOptions (sfd : Fd) (subset : Bool) : M Unit :=
+  if subset then do
     let _ ← M.try' (Sys.fsconfigSetString sfd b!"hidepid" b!"ptraceable")
     let _ ← M.try' (Sys.fsconfigSetString sfd b!"subset" b!"pid")
+    pure ()
+  else pure ()
+
+def newFsopen (env : Env) (subset : Bool) : M ProcH := do
+  let sfd ← Sys.fsopen b!"proc" FSOPEN_CLOEXEC
+  setSubsetOptions sfd subset
   (Sys.fsconfigCreate sfd).onErr (Sys.close sfd)
   let mnt ← (Sys.fsmount sfd FSMOUNT_CLOEXEC MOUNT_ATTRS).onErr (Sys.close sfd)
   let h ← (tryFromFd env mnt).onErr (Sys.close sfd)
